@@ -11,7 +11,7 @@ CHECKS["C06"] = dict(
     technique="explicit-state model checking of the implementation: exhaustive enumeration of (buffer fill level x operation sequence) on the real encoder against a reference encoder",
     level_text="Every reachable encoder state (fill level 0..2048) is visited and every operation/argument class is fired from it on the real code; outputs are compared with an independent RFC 8949 encoder. Right level: the only position-dependent state of the encoder is the fill level, so the state space is finite and fully enumerable.",
     level_note="Trusted: ref/cbor.hpp preferred encoder; g++/ASan/UBSan runtime; string payloads use one byte pattern per length (payload bytes are copied, never inspected).",
-    stages=[dict(harness="enc", variant="asan", max_alloc_mb=512, require=["long_traces"])],   # liblzma allocates its 64 MiB match-finder table in one piece
+    stages=[dict(harness="enc", variant="asan", max_alloc_mb=512, require=["long_traces", "short_writes"])],   # liblzma allocates its 64 MiB match-finder table in one piece
     rule="explicit-state exploration of the real CdnsEncoder: state = fill level of the 2 KiB staging buffer (every level 0..2048 "
          "reached by a filler and read back through the private pointer), transitions = the 18 public write operations x argument "
          "classes (width boundaries, full 2^8/2^16 ranges, string lengths 0..3x2048), plus all pairs/triples near the buffer end and "
@@ -49,6 +49,7 @@ CHECKS["C13"] = dict(
             dict(harness="hist", variant="plain", args=["--mode", "rotate-xz"], prefix="xz_"),
             dict(harness="val", variant="asan", args=["--mode", "align"], prefix="align_"),
             dict(harness="val", variant="asan", args=["--mode", "values"], prefix="long_"),   # includes the trace with more than 2^16 blocks per output and a rotation at exactly 2^16
+            dict(harness="comp", variant="plain", args=["--mode", "export-rotated"], prefix="bigz_", require=["export_runs", "export_records_validated"]),   # large gzip / xz exports rotated half-way: both outputs valid, every record once
             dict(harness="hist", variant="plain", args=["--mode", "rotate", "--bfs", "8", "--abstract", "1"], prefix="bfs_", tiers=("quick",)),
             dict(harness="hist", variant="plain", args=["--mode", "rotate", "--bfs", "10", "--abstract", "1"], prefix="bfs_", tiers=("thorough",))],
     rule="stateless DFS over an 11-operation alphabet x 2 configurations x {named file, descriptor, descriptor whose write(2) transfers at most 7 bytes per call (plain, gzip)} x {plain, gzip, xz}; every history of length 0..D; non-trivial = at least one operation",
@@ -231,24 +232,24 @@ ENGINES.append(dict(name="E-COMP", path="harness/comp.cpp", serves_properties=["
 CHECKS["C15"] = dict(
     level="fault_enumeration", engine="E-FAULT",
     technique="exhaustive crash-point enumeration on the implementation: the process is killed immediately before every output-related system call (write, writev, rename) of each scenario, with the calls interposed in the harness executable",
-    level_text="33 scenarios ({plain, gzip, xz} x {first name a symbolic link to /dev/null, then a rotation to an ordinary name; single output closed by destruction; three rotations with and without export; rotation onto a name that already holds an older complete file; rotation back onto the first name; destruction with buffered but unwritten data; destruction with nothing written; high-entropy records (the compressor holds several KB at close, finishing takes several passes); stale '.part' files left by a dead run}), records of 3 KB so that blocks span several encoder flushes and the ofstream buffer spills mid-block. A trace run records the K output calls; for every k in 1..K a forked child runs the scenario and _exits immediately before its k-th call; afterwards every directory entry not ending in .part must be byte-identical to one of the complete versions that name legitimately holds (the pre-existing file or a closed output of the uninterrupted run, each validated as a complete stream and valid C-DNS file). The trace run also checks that every data write targets a *.part path.",
+    level_text="42 scenarios ({plain, gzip, xz} x {an output that ends exactly at the end of the staging buffer when it is rotated; final paths of exactly 255 and 252 characters; first name a symbolic link to /dev/null, then a rotation to an ordinary name; single output closed by destruction; three rotations with and without export; rotation onto a name that already holds an older complete file; rotation back onto the first name; destruction with buffered but unwritten data; destruction with nothing written; high-entropy records (the compressor holds several KB at close, finishing takes several passes); stale '.part' files left by a dead run}), records of 3 KB so that blocks span several encoder flushes and the ofstream buffer spills mid-block. A trace run records the K output calls; for every k in 1..K a forked child runs the scenario and _exits immediately before its k-th call; afterwards every directory entry not ending in .part must be byte-identical to one of the complete versions that name legitimately holds (the pre-existing file or a closed output of the uninterrupted run, each validated as a complete stream and valid C-DNS file). The trace run also checks that every data write targets a *.part path.",
     level_note="Crash model = process death between system calls (the property's model); no power loss / page cache reasoning. Trusted: path of a descriptor read from /proc/self/fd at call time; write/writev/rename are the only output calls libstdc++ and the library issue (verified by the trace containing all bytes).",
     stages=[dict(harness="fault", variant="plain", args=["--mode", "crash"], link=["-rdynamic"], require=["gz_finish_multipass", "xz_finish_multipass"]),
             dict(harness="val", variant="asan", args=["--mode", "align", "--named", "1"], prefix="named_"),
             dict(harness="comp", variant="plain", args=["--mode", "export-wellformed"], prefix="bigz_", require=["export_runs", "export_records_validated"])],   # outputs large enough for the codecs to emit while data still arrives: what carries the final name must be a complete valid document
     rule="large compressed outputs (no crash): end-to-end exports of 3000 / 25000 (/ 60000) records x {gzip, xz} x {name, descriptor}, the finished file is decompressed and validated; named-output alignment sweep (no crash, the k = K+1 case of every size): a padding string of every length 0..2100 (thorough 0..4199) x {plain, gzip} moves the end of a rotated and of a destroyed output across every position of the encoder's 2 KiB staging buffer; what is visible under the final names must be complete valid files (closing break included), nothing else may be left in the directory. (scenario, k) pairs enumerated exhaustively; a run is non-trivial when the child really stopped at call k (exit code 77), otherwise it is reported as a harness error",
-    bound_quick="all 33 scenarios, every k", bound_thorough="same (the space is small and fully covered in the quick tier)",
+    bound_quick="all 42 scenarios, every k", bound_thorough="same (the space is small and fully covered in the quick tier)",
     assumptions=["tmpfs scratch directory"],
 )
 
 CHECKS["C16"] = dict(
     level="fault_enumeration", engine="E-FAULT",
     technique="exhaustive fault-point enumeration on the implementation: every write/writev of each scenario fails with ENOSPC / EIO or is cut short, once or persistently, with the documented recovery protocol as driver",
-    level_text="48 scenarios (the C15 ones for named outputs plus descriptor outputs). For every write call k of the trace x {ENOSPC, EIO, short count} x {only call k, every later call to the same output}: a forked child runs the history reacting as documented (on the first exception: rotate_output(healthy, false), write_block(), destroy; otherwise rotate_output(healthy, true)). Clause 1: every output closed by a rotate_output that returned normally after the same history as the fault-free run must hold exactly the fault-free bytes. Clause 2: after an exception from a block write the buffered item count is unchanged, the rotate_output to the healthy destination returns normally and the recovery output is a complete valid file holding exactly the records of the failed block.",
+    level_text="60 scenarios (the C15 ones for named outputs plus descriptor outputs). For every write call k of the trace x {ENOSPC, EIO, short count} x {only call k, every later call to the same output}: a forked child runs the history reacting as documented (on the first exception: rotate_output(healthy, false), write_block(), destroy; otherwise rotate_output(healthy, true)). Clause 1: every output closed by a rotate_output that returned normally after the same history as the fault-free run must hold exactly the fault-free bytes. Clause 2: after an exception from a block write the buffered item count is unchanged, the rotate_output to the healthy destination returns normally and the recovery output is a complete valid file holding exactly the records of the failed block.",
     level_note="A write that reports 0 bytes is injected for descriptor outputs only (fault kind 4, persistent, 5 s watchdog: a hang is a violation); for named outputs libstdc++ itself retries for ever, which says nothing about c-dns. Failures of rename/open/close are outside the enumerated faults. Known findings D12a-c are listed in known_findings.json by (clause, sink kind, compression, whether the faulted output is the one closed).",
     stages=[dict(harness="fault", variant="plain", args=["--mode", "fault"], link=["-rdynamic"])],
     rule="(scenario, k, fault kind, persistence) tuples enumerated exhaustively; non-trivial = the injected point was reached; unreachable points are harness errors",
-    bound_quick="all 48 scenarios, every write call, 3 fault kinds x 2 persistence modes (+ zero-byte writes and a single EINTR on the 15 descriptor scenarios)", bound_thorough="same",
+    bound_quick="all 60 scenarios, every write call, 3 fault kinds x 2 persistence modes (+ zero-byte writes and a single EINTR on the 15 descriptor scenarios)", bound_thorough="same",
     assumptions=["C16 clause 1 is read as 'no silent loss': an exception no later than the rotate_output that closes the output (DESIGN 8.2)"],
 )
 ENGINES.append(dict(name="E-FAULT", path="harness/fault.cpp", serves_properties=["C15", "C16"], kind_free_text="exhaustive crash-point / write-fault enumeration with interposed write, writev, rename"))
